@@ -393,6 +393,10 @@ class Wtp:
 
         if self.backup_db_path.exists():
             self.db_path.unlink(True)
+            # also remove the stale SQLite -wal and -shm files of the old
+            # database, otherwise they are replayed onto the restored file
+            for suffix in ("-wal", "-shm"):
+                Path(str(self.db_path) + suffix).unlink(True)
             self.backup_db_path.rename(self.db_path)
 
         self.db_conn = sqlite3.connect(self.db_path, check_same_thread=False)
